@@ -729,7 +729,7 @@ def oracle(scn, tmpdir):
                     gn = L0.get_value_nearest_neighbor(*xyz)
                 except Exception as e:  # noqa: BLE001
                     return ("cell-read:node", f"get_value at node {(i, j, k)} raised {type(e).__name__}", dict(node=[i, j, k]))
-                if not same(float(g), v) or not same(float(gn), v):
+                if g is None or gn is None or not same(float(g), v) or not same(float(gn), v):
                     return ("cell-read:node", f"get_value/get_value_nearest_neighbor at node {(i, j, k)} = {g}, {gn}; stored {v}",
                             dict(node=[i, j, k]))
     return None
@@ -810,9 +810,9 @@ def correspond(ctx):
             ctx.count("point/" + x)
         for l in scn["lats"]:
             ctx.count("shape/" + "x".join(str(v) for v in sorted(l["n"])))
-        if out != want or gout != want:
+        if not agree(out, want, dcmds) or not agree(gout, want, dcmds):
             # where do they differ?
-            what = ("hand-written model: " + _first_diff(out, want, dcmds)) if out != want else \
+            what = ("hand-written model: " + _first_diff(out, want, dcmds)) if not agree(out, want, dcmds) else \
                 ("functions generated from the current source: " + _first_diff(gout, want, dcmds))
             if len({v["key"] for v in ctx.violations}) >= 4 or len(ctx.broken) >= 6:
                 ctx.count("further-differing-scenarios-not-analysed")
@@ -856,6 +856,40 @@ def correspond(ctx):
         ctx.brk("correspondence-broken", f"np.savetxt/np.loadtxt did not round-trip {bad} doubles: the parse(fmt x)=x hypothesis "
                                          f"of csv_roundtrip does not hold for the installed numpy")
     ctx.cov["contract_checks"] = contract
+
+
+def _attr_close(a: str, b: str) -> bool:
+    """two `at` answers: the derived constructor attributes are float formulas; a re-ordered product in the source
+    (or in a model that replays another order) may differ in the last bits without the property being touched"""
+    if a == b:
+        return True
+    if not (a.startswith("a") and b.startswith("a")):
+        return False
+    xs, ys = a[1:].split(";"), b[1:].split(";")
+    if len(xs) != len(ys):
+        return False
+    for x, y in zip(xs, ys):
+        if x == y:
+            continue
+        if "none" in (x, y) or x.startswith("err") or y.startswith("err"):
+            return False
+        u, v = unfx(x), unfx(y)
+        if not ((u != u and v != v) or u == v or abs(u - v) <= 1e-13 * max(abs(u), abs(v))):
+            return False
+    return True
+
+
+def agree(out: str, want: str, dcmds) -> bool:
+    """driver answer line = real answer line; textual, except the `at` answers (tolerance of a few ulp)"""
+    if out == want:
+        return True
+    o, w = out.split(" "), want.split(" ")
+    if len(o) != len(w) or len(o) < 2 or o[0] != w[0] or o[2:] != w[2:]:
+        return False
+    ro, rw = o[1].split("|"), w[1].split("|")
+    if len(ro) != len(rw) or len(ro) != len(dcmds):
+        return False
+    return all(a == b or (d.startswith("at,") and _attr_close(a, b)) for a, b, d in zip(ro, rw, dcmds))
 
 
 def _strip(scn):
@@ -970,8 +1004,8 @@ def replay(ctx, path):
     try:
         out, gout = common.run_driver("C17", [scn_line(scn, dcmds), "g" + scn_line(scn, dcmds)])
         want = "ok " + "|".join(answers) + " " + "|".join(dumps)
-        print("[C17] model vs real code:", "equal" if out == want else _first_diff(out, want, dcmds))
-        print("[C17] generated functions vs real code:", "equal" if gout == want else _first_diff(gout, want, dcmds))
+        print("[C17] model vs real code:", "equal" if agree(out, want, dcmds) else _first_diff(out, want, dcmds))
+        print("[C17] generated functions vs real code:", "equal" if agree(gout, want, dcmds) else _first_diff(gout, want, dcmds))
     except Exception as e:  # noqa: BLE001
         print(f"[C17] driver not run: {e}")
     if r:
